@@ -134,6 +134,16 @@ class Report
             fprintf (stderr, "REPLAY-FAIL site=%s input=%s expected=%s got=%s\n",
                      site.c_str (), input.c_str (), expected.c_str (), got.c_str ());
     }
+    // bulk form: n further failures at a site (e.g. counted in a forked worker), first example optional
+    void fail_n (const std::string& site, long long n, const std::string& input = "", const std::string& expected = "",
+                 const std::string& got = "")
+    {
+        if (n <= 0) return;
+        std::lock_guard<std::mutex> g (mu);
+        long long& c = vcount[site];
+        if (c < 4 && !input.empty ()) viols.push_back ({site, cur_stage, input, expected, got});
+        c += n;
+    }
     bool has_failures () const { return !vcount.empty (); }
 
     // ---- stages ----
@@ -203,7 +213,15 @@ class Report
         for (auto& kv : classes) { fprintf (f, "%s\"%s\": %lld", first ? "" : ", ", jesc (kv.first).c_str (), kv.second); first = false; }
         fprintf (f, "},\n \"maxima\": {");
         first = true;
-        for (auto& kv : maxima) { fprintf (f, "%s\"%s\": %.6g", first ? "" : ", ", jesc (kv.first).c_str (), kv.second); first = false; }
+        for (auto& kv : maxima)
+        {   // JSON has no inf/nan
+            double v = kv.second;
+            if (!(v == v)) v = -1;
+            else if (v > 1e300) v = 1e300;
+            else if (v < -1e300) v = -1e300;
+            fprintf (f, "%s\"%s\": %.6g", first ? "" : ", ", jesc (kv.first).c_str (), v);
+            first = false;
+        }
         fprintf (f, "},\n \"notes\": {");
         first = true;
         for (auto& kv : notes) { fprintf (f, "%s\"%s\": \"%s\"", first ? "" : ", ", jesc (kv.first).c_str (), jesc (kv.second).c_str ()); first = false; }
